@@ -577,6 +577,16 @@ def run_mma(case, prob, rec):
                 st0 = prob["kw"]["xmin"]            # the very array object that is passed as xmin
             if i in prob.get("int_sigs", ()):
                 st0 = st0.astype(int) if isinstance(st0, np.ndarray) else (np.int64(st0) if isinstance(st0, np.floating) else int(st0))
+            how = [None, None, None, "F", "T"][case["payload_seed"] % 5]
+            if (form == "signals" and how and not prob.get("alias_bound") and isinstance(st0, np.ndarray)
+                    and st0.ndim == 1):
+                # a design held as a 2-D field in Fortran order or as a transposed view: the design vector is its
+                # row-major flattening whatever the memory layout (derived from the payload seed: no extra draw)
+                r = next((d for d in (2, 3, 4, 5) if st0.size % d == 0 and st0.size // d >= 2), None)
+                if r is not None:
+                    st0 = (np.asfortranarray(st0.reshape(r, -1)) if how == "F"
+                           else np.ascontiguousarray(st0.reshape(r, -1).T).T)
+                    rec["layout2d"] = True
             if form == "prealloc" and isinstance(st0, np.ndarray) and st0.ndim >= 1:
                 variables.append(pym.Signal(f"x{i}", state=st0, sensitivity=np.zeros(st0.shape)))
             else:
@@ -706,6 +716,8 @@ def check_case(case, _debug=None):
         bad(f"raises:{where}:{type(e).__name__}", traceback.format_exc()[-900:])
     cbs, calls = rec["cb"], rec["calls"]
     labels.append("variables:" + rec.get("var_form", "signals"))
+    if rec.get("layout2d"):
+        labels.append("layout:2d_non_c_contiguous")
     if rec.get("pre_sens"):
         labels.append("sensitivities_left_before_start")
     if np.any(prob["x0"] == 0.0):
